@@ -12,8 +12,8 @@ import (
 	"runtime"
 	"sort"
 	"strings"
-	"time"
 	"sync"
+	"time"
 
 	abci "github.com/cometbft/cometbft/abci/types"
 	"verifharness/enga"
@@ -71,10 +71,10 @@ type c07Outcome struct {
 	FinCalls []string `json:"engine_calls_during_finalize_block"`
 	// PartialLog: this replica did not run ProcessProposal in the process that finalised the block
 	// (replay after a crash, block sync), so only the FinalizeBlock part of the log is comparable
-	PartialLog bool `json:"partial_engine_log,omitempty"`
-	Dump     string   `json:"store_dump"`
-	NextHash string   `json:"next_block_app_hash,omitempty"`
-	Err      string   `json:"error,omitempty"`
+	PartialLog bool   `json:"partial_engine_log,omitempty"`
+	Dump       string `json:"store_dump"`
+	NextHash   string `json:"next_block_app_hash,omitempty"`
+	Err        string `json:"error,omitempty"`
 }
 
 func (o c07Outcome) digest() string {
